@@ -25,6 +25,11 @@ import (
 
 func init() { logx.Disable() }
 
+// c01PtrErr: an error whose nil pointer is a usable error value
+type c01PtrErr struct{}
+
+func (e *c01PtrErr) Error() string { return "c01 typed nil" }
+
 type c01RTab struct {
 	Err string `json:"e"`
 }
@@ -32,7 +37,10 @@ type c01RTab struct {
 func TestVerif_C01_redis_table(t *testing.T) {
 	plain := errors.New("c01: redis down")
 	each := func(yield func(c01RTab) bool) {
-		for _, e := range []string{"nil", "redis.Nil", "canceled", "plain", "eof", "unavailable", "deadline"} {
+		// the last four are UNSPECIFIED by the statement (it names the sentinel values; the code
+		// compares with ==): wrapped / joined sentinels and a typed nil are run for panics only
+		for _, e := range []string{"nil", "redis.Nil", "canceled", "plain", "eof", "unavailable", "deadline",
+			"wrapped-redis.Nil", "wrapped-canceled", "joined", "typednil"} {
 			if !yield(c01RTab{e}) {
 				return
 			}
@@ -56,6 +64,21 @@ func TestVerif_C01_redis_table(t *testing.T) {
 			err = breaker.ErrServiceUnavailable
 		case "deadline":
 			err = context.DeadlineExceeded
+		case "wrapped-redis.Nil", "wrapped-canceled", "joined", "typednil":
+			switch c.Err {
+			case "wrapped-redis.Nil":
+				err = fmt.Errorf("c01 wrap: %w", red.Nil)
+			case "wrapped-canceled":
+				err = fmt.Errorf("c01 wrap: %w", context.Canceled)
+			case "joined":
+				err = errors.Join(red.Nil, plain)
+			case "typednil":
+				var p *c01PtrErr
+				err = p
+			}
+			v.Classes = []string{"unspecified-error-value"}
+			_ = acceptable(err) // a panic here crashes the check: that is the only verdict
+			return v
 		}
 		v.NonTrivial = true
 		if benign {
@@ -148,6 +171,14 @@ func c01InterpRedis(t *testing.T, servers []*miniredis.Miniredis, c c01RCase) (v
 	nfail := make([]int, c.K)
 	calls := make([]int, c.K)
 	classes := map[string]bool{}
+	stalled := -1
+	defer func() {
+		if stalled >= 0 { // control measurement, see c01RealNow: excluded, never a failure
+			v = kit.Verdict{Excluded: true, Classes: []string{"env:stalled-call"}}
+			servers[stalled].Close()
+			servers[stalled] = c01RunServer(t)
+		}
+	}()
 	res := kit.Bubble(t, func() {
 		if c.Skew > 0 {
 			time.Sleep(time.Duration(c.Skew))
@@ -187,6 +218,7 @@ func c01InterpRedis(t *testing.T, servers []*miniredis.Miniredis, c c01RCase) (v
 			calls[n]++
 			before := s.CommandCount()
 			var err error
+			t0 := c01RealNow()
 			switch o.C {
 			case "hget":
 				_, err = r.HGetCtx(ctx, key, "f")
@@ -200,6 +232,10 @@ func c01InterpRedis(t *testing.T, servers []*miniredis.Miniredis, c c01RCase) (v
 				_, err = r.ZRankCtx(ctx, key, "m")
 			case "get":
 				_, err = r.GetCtx(ctx, key)
+			}
+			if c01RealNow()-t0 > c01Stall {
+				stalled = n
+				return
 			}
 			what := fmt.Sprintf("op %d %+v (call %d of node %d)", i, o, calls[n], n)
 			classes[fmt.Sprintf("%s/%d", o.C, o.O)] = true
@@ -265,22 +301,32 @@ func c01InterpRedis(t *testing.T, servers []*miniredis.Miniredis, c c01RCase) (v
 	return v
 }
 
-func TestVerif_C01_redis_run(t *testing.T) {
-	var servers []*miniredis.Miniredis
-	for i := 0; i < 3; i++ {
-		s, err := miniredis.Run()
-		if err != nil {
-			t.Fatalf("miniredis: %v", err)
-		}
-		defer s.Close()
-		s.HSet("h", "f", "v")
-		s.ZAdd("z", 1, "m")
-		_ = s.Set("s", "str")
-		if !New(s.Addr()).Ping() { // warm the shared client of this address up outside any bubble
-			t.Fatalf("miniredis does not answer")
-		}
-		servers = append(servers, s)
+// c01RunServer: a miniredis with the keys of redis-run; the shared client of its address
+// is warmed up outside any bubble.
+func c01RunServer(t *testing.T) *miniredis.Miniredis {
+	s, err := miniredis.Run()
+	if err != nil {
+		t.Fatalf("miniredis: %v", err)
 	}
+	s.HSet("h", "f", "v")
+	s.ZAdd("z", 1, "m")
+	_ = s.Set("s", "str")
+	if !New(s.Addr()).Ping() {
+		t.Fatalf("miniredis does not answer")
+	}
+	return s
+}
+
+func TestVerif_C01_redis_run(t *testing.T) {
+	servers := make([]*miniredis.Miniredis, 3)
+	for i := range servers {
+		servers[i] = c01RunServer(t)
+	}
+	defer func() {
+		for _, s := range servers {
+			s.Close()
+		}
+	}()
 	kit.Run(t, "C01", "redis-run", kit.Opts{Quick: 120, Thorough: 2400}, c01GenRedis,
 		func(c c01RCase) kit.Verdict { return c01InterpRedis(t, servers, c) })
 }
